@@ -125,6 +125,28 @@ func (h *c07h) extraJobs(root *rng, tier string, jobs *[]*c07job) {
 		}
 	}
 	add(func(j *c07job) { h.runStmts(j, gs) })
+	// stream L: composite literals of host-declared named types; stream P: result placement with captured variables
+	repsL := 2
+	if tier == "thorough" {
+		repsL = 20
+	}
+	for rep := 0; rep < repsL; rep++ {
+		for _, typ := range []string{"Vec", "Grid", "Names", "Dict", "Rec"} {
+			for _, form := range []string{"direct", "var", "local-conv", "unnamed", "nested"} {
+				for _, mixed := range []string{"plain", "keyed", "mixed"} {
+					if (typ == "Dict" || typ == "Rec") && (mixed == "mixed" || form == "local-conv" || form == "unnamed") {
+						continue
+					}
+					l := h.genL(root.fork(), typ, form, mixed)
+					add(func(j *c07job) { h.runL(j, l) })
+				}
+			}
+		}
+	}
+	for _, p := range h.allP(1 + root.intn(500)) {
+		p := p
+		add(func(j *c07job) { h.runP(j, p) })
+	}
 	nI := 2
 	if tier == "thorough" {
 		nI = 25
